@@ -10,6 +10,8 @@ func init() {
 			{Name: "type-entries", Pkg: ".", Files: files, Entry: "VerifIntrospectionAnswers", Mode: "seq",
 				Reach: []string{"type entry checked"}, Functions: fns,
 				Known: []string{"C16-type-name-by-variable", "C16-shape-per-kind", "C16-interface-possible-types", "C16-input-field-defaults"}},
+			{Name: "sibling-selections", Pkg: ".", Files: files, Entry: "VerifIntrospectionSiblings", Mode: "seq",
+				Reach: []string{"sibling selections checked"}, Functions: fns},
 			{Name: "round-trip", Pkg: ".", Files: files, Entry: "VerifIntrospectionRoundTrip", Mode: "seq",
 				Reach: []string{}, Functions: fns,
 				Known: []string{"C16-second-gateway-cannot-introspect"}},
